@@ -214,7 +214,7 @@ func (g *genCtx) genPanicSites(repo string) string {
 		sites = u
 	}
 	var b strings.Builder
-	b.WriteString("(* generated by harness gen from the library source: do not edit *)\nFrom Coq Require Import String List.\nImport ListNotations.\nOpen Scope string_scope.\n\n")
+	b.WriteString("(* generated by harness gen from the library source: do not edit *)\nFrom Coq Require Import String List.\nImport ListNotations.\nLocal Open Scope string_scope.\n\n")
 	b.WriteString("Definition panic_sites : list (string * string * string * string) := [\n")
 	for i, r := range sites {
 		sep := ";"
